@@ -1,9 +1,12 @@
 (** Extraction of the Fmt2 model (C22) to OCaml.  ExtrOcamlBasic only; no Extract Constant. *)
 From Coq Require Extraction ExtrOcamlBasic.
 From Coq Require Import NArith ZArith.
-From TLV Require Fmt2.Fmt2Model Fmt2.Fmt2LexModel.
+From TLV Require Fmt2.Fmt2Model Fmt2.Fmt2LexModel Fmt2.Fmt2ParseModel Fmt2.Fmt2PrintProofs Fmt2.Fmt2ParseProofs.
+(* the hypotheses of the theorems (wf_comb, wf2_comb, comb_bar) are extracted from the proof files so that the check can
+   evaluate them on every AST the real parser returns; vlib hashes only *Model.v: bump this line when they change (v1) *)
 Extraction Blacklist String List Nat Int.
 Separate Extraction
   BinNat.N.add BinNat.N.mul BinNat.N.div_eucl BinNat.N.eqb BinNat.N.ltb BinNat.N.of_nat BinNat.N.to_nat
   BinInt.Z.add BinInt.Z.mul BinInt.Z.opp BinInt.Z.of_N BinInt.Z.to_N BinInt.Z.ltb
-  TLV.Fmt2.Fmt2Model TLV.Fmt2.Fmt2LexModel.
+  TLV.Fmt2.Fmt2Model TLV.Fmt2.Fmt2LexModel TLV.Fmt2.Fmt2ParseModel
+  TLV.Fmt2.Fmt2PrintProofs.wf_comb TLV.Fmt2.Fmt2PrintProofs.comb_bar TLV.Fmt2.Fmt2ParseProofs.wf2_comb.
